@@ -24,8 +24,22 @@ def _mk(name, props):
                     yield "wf-" + k, z3.And(wf_pfx(c, v), z3.Or(v.ref == IdentityPrefix.ref, pbase(c, v) >= 2))
                 elif v.cls == "Unit":
                     yield "wf-" + k, wf_unit(c, v)
+                elif v.cls == "Quantity":
+                    from .c_quantity import wf_qty
+                    yield "wf-" + k, wf_qty(c, v)
+                    yield "offset-free-" + k, offset_free_m(c.fz("Unit", c.f(v, "unit"), "factors"))
         # same-base clause of C02: all prefixes involved share one base (or are the identity)
         pfx = [v for v in vals if v.cls == "Prefix"] + [VObj("Prefix", c.f(v, "prefix")) for v in vals if v.cls == "Unit"]
+        qs = [v for v in vals if v.cls == "Quantity"]
+        if qs:
+            pfx = []
+            # the ordering lemmas are about quantities the library can compare: one dimension, convertible both ways
+            for i in range(len(qs)):
+                for j in range(len(qs)):
+                    if i != j:
+                        fi, fj = c.fz("Unit", c.f(qs[i], "unit"), "factors"), c.fz("Unit", c.f(qs[j], "unit"), "factors")
+                        yield "comparable-%d-%d" % (i, j), z3.And(z3.Not(noconv(fi, fj)),
+                                                                  c.fz("Unit", c.f(qs[i], "unit"), "dimension") == c.fz("Unit", c.f(qs[j], "unit"), "dimension"))
         for i in range(len(pfx)):
             for j in range(i + 1, len(pfx)):
                 yield "same-base-%d-%d" % (i, j), z3.Or(pbase(c, pfx[i]) == 0, pbase(c, pfx[j]) == 0, pbase(c, pfx[i]) == pbase(c, pfx[j]))
@@ -36,7 +50,7 @@ def _mk(name, props):
 
     K = type("L_" + name, (Contract,), {
         "qual": "lemmas." + name, "props": props, "inv": ("I_D", "I_P", "I_U"),
-        "modifies": _UnitBin.modifies, "ret": ("none",), "requires": requires, "lemma": True})
+        "modifies": _UnitBin.modifies + ("new:Quantity",), "ret": ("none",), "requires": requires, "lemma": True})
     CONTRACTS["lemmas." + name] = K()
 
 
@@ -46,5 +60,5 @@ BOUNDED_ONLY = {"prefix_associative", "unit_associative", "unit_exponent_sum", "
 
 for _n in ast.parse(open(SRC).read()).body:
     if isinstance(_n, ast.FunctionDef) and _n.name not in BOUNDED_ONLY:
-        _p = ("C02", "C11") if _n.name.startswith(("prefix", "prefixed")) else ("C02",)
+        _p = ("C02", "C11") if _n.name.startswith(("prefix", "prefixed")) else ("C12",) if _n.name.startswith("qty_") else ("C02",)
         _mk(_n.name, _p)
